@@ -29,11 +29,12 @@ ANCHORS = [
 ]
 VK = ["scalar", "flat", "flatlist", "colvec", "collist", "ragged", "bad_same_total", "bad_total", "bad_rows", "bad_onerow"]
 FLOOR_TAGS = ["vk:" + v for v in VK] + ["mask:scalar", "mask:flat", "r:int", "r:slice+1", "r:slice+k", "r:slice-", "r:list", "r:mask", "r:ell",
-                                        "recv:fresh", "recv:lazyrows", "recv:lazycols+2", "recv:lazycols-1", "recv:lazychain", "recv:deepcopy", "recv:pickle", "values:hostile-floats",
+                                        "recv:fresh", "recv:lazyrows", "recv:lazycols+2", "recv:lazycols-1", "recv:lazychain", "recv:deepcopy", "recv:pickle", "values:hostile-floats", "valdtype:other", "valdtype:exotic", "ellipsis-padded",
                                         "c:none", "c:int+", "c:int-", "c:slice+1", "c:slice+k", "c:slice-", "sel-has-empty-row", "e-first", "e-last", "e-mid", "allempty", "norows"]
 FLOOR_MONITORS = ["c03:footprint", "c03:must-refuse", "c03:bystander", "c03:alias", "c03:parent-untouched"]
 N_RANDOM = {"quick": 24000, "thorough": 300000}
 BASE = 100000
+VALDTYPES = ["int32", "uint32", "int64", "uint64", "float64", "longdouble", "object"]
 
 
 def setup(lib):
@@ -101,6 +102,12 @@ def run(case):
     hostile = case.get("hostile", False)
     val = (lambda k: float(np.array(HOSTILE[k % len(HOSTILE)], dtype=dt))) if hostile else (lambda k: BASE + k)
     tags = ["vk:" + vk, model.describe_selector(rs), model.describe_cols(cs, has_cs), "recv:" + recv, "values:" + ("hostile-floats" if hostile else "ids")] + gen.empty_placement(lens)
+    # the value operand may come in another element type than the target (numpy casts on assignment); only types that hold the ids exactly
+    vdt = np.dtype(case["valdtype"]) if (case.get("valdtype") and not hostile) else dt
+    if vdt != dt:
+        tags.append("valdtype:other")
+        if vdt.kind in "Og":
+            tags.append("valdtype:exotic")
     try:
         kind, cells = model.select_cells(lens, rs, cs, has_cs)
     except model.Refused:
@@ -130,12 +137,12 @@ def run(case):
             exp[i][j] = val(0)
     elif vk in ("flat", "flatlist"):
         vals = [val(k) for k in range(ncell)]
-        value = np.array(vals, dtype=dt) if vk == "flat" else list(vals)
+        value = np.array(vals, dtype=vdt) if vk == "flat" else list(vals)
         for k, (i, j) in enumerate(flatcells):
             exp[i][j] = vals[k]
     elif vk in ("colvec", "collist"):
         col = [val(k) for k in range(nsel)]
-        value = np.array(col, dtype=dt).reshape(nsel, 1) if vk == "colvec" else [[c] for c in col]
+        value = np.array(col, dtype=vdt).reshape(nsel, 1) if vk == "colvec" else [[c] for c in col]
         for k, r in enumerate(cells):
             for (i, j) in r:
                 exp[i][j] = col[k]
@@ -149,7 +156,7 @@ def run(case):
                 return undefined("no mismatching value of that kind exists", tags)
             must_refuse = True
         vals = [val(k) for k in range(sum(vlens))]
-        value_ra = value = RA(np.array(vals, dtype=dt), list(vlens))
+        value_ra = value = RA(np.array(vals, dtype=(vdt if vdt.kind not in "Og" else dt)), list(vlens))
         value_before = peek(value_ra)
         if not must_refuse:
             for k, (i, j) in enumerate(flatcells):
@@ -161,7 +168,10 @@ def run(case):
     parent_before = peek(parent) if parent is not None else None
     by_rows = gen.id_rows(lens, base=500000)
     bystander = RA(np.array([v for r in by_rows for v in r], dtype=dt), list(lens))
-    idx = model.make_index(rs, cs, has_cs)
+    ellpad = case.get("ellpad", 0) if (has_cs and rs is not Ellipsis) else 0
+    idx = model.make_index(rs, cs, has_cs, ellpad=ellpad)
+    if ellpad:
+        tags.append("ellipsis-padded")
 
     if vk == "augmented":
         def aug():
@@ -349,7 +359,10 @@ def random_case(rng, tier):
         nsel = len(cells) if kind == "RA" else 1
         vks = [v for v in VK if applicable(kind, v, nsel)]
         recv = rng.choice([r_ for r_ in c02.RECVS if r_ != "readonly"]) if rng.random() < 0.4 else "fresh"
-        return mk_case(lens, rs, cs, h, rng.choice(vks), dtype, recv, hostile=rng.random() < 0.5)
+        c = dict(mk_case(lens, rs, cs, h, rng.choice(vks), dtype, recv, hostile=rng.random() < 0.5), ellpad=(rng.choice([1, 2, 3]) if rng.random() < 0.08 else 0))
+        if rng.random() < 0.25:
+            c["valdtype"] = rng.choice(VALDTYPES)
+        return c
     return mk_case(lens, Ellipsis, None, False, "scalar", dtype)
 
 
